@@ -126,7 +126,10 @@ static void run_case(const Geom &g, const Opt &o, bool emit, int big_threshold) 
     return;
   }
   ++n_emit;
-  Encoded e2 = encode(g, o);   // a second, independent encode (fresh encoder object)
+  // a second, independent encode of the same input with the same settings on objects with another past: a fresh Encoder where the first one was reused
+  // after Reset() (and the other way round), a buffer that has served a size-prefixed bit sequence, an Encoder that first received rejected requests
+  Opt o2 = o; o2.history = true; o2.reuse_enc = !o.reuse_enc;
+  Encoded e2 = encode(g, o2);
   const std::string m = !e1.ok || e1.bytes.size() < 9 ? "none" : (g.is_mesh ? (e1.bytes[8] == 1 ? "eb" : "seq") : (e1.bytes[8] == 1 ? "kd" : "seq"));
   out.begin("RT").i("case", n_cases).s("gt", g.is_mesh ? "mesh" : "pc").s("shape", g.shape).s("m", m).i("sub", o.submethod).i("es", o.es).i("ds", o.ds)
       .b("builtin", o.builtin).i("split", o.split).i("pred", o.pred).arr("qbits", o.qbits).b("expert", o.expert)
